@@ -26,6 +26,7 @@ class Gen:
     self.bases_of = {}   # class name -> list of base names (own classes only)
     self.generics = []   # names of Generic[T] classes
     self.n = 0
+    self.local = {}      # upstream module name -> name it is bound to here
     self.theme = theme   # class names shared by all programs of one run
     self.fork = fork     # (k, seed): after k statements continue with another
                          # PRNG - two modules with a common prefix and colliding
@@ -196,6 +197,7 @@ class Gen:
       bases = [r.choice(["int", "str", "Exception"])]
     elif self.prof["multi_up"] and self.upstream and r.random() < 0.3:
       up, exports = r.choice(self.upstream)
+      up = self.local.get(up, up)   # the name the module is bound to here
       if exports.get("classes"):
         bases = ["%s.%s" % (up, r.choice(exports["classes"]))]
     self.bases_of[name] = own_bases
@@ -405,6 +407,7 @@ class Gen:
     if not cands:
       return self.gen_upstream_use()
     up, exports = r.choice(cands)
+    up = self.local.get(up, up)   # the name the module is bound to here
     pairs = [(b, d) for d, bs in sorted(exports.get("bases", {}).items()) for b in bs
              if b in exports["classes"] and d in exports["classes"]]
     if pairs and r.random() < 0.6:
@@ -642,6 +645,7 @@ class Gen:
       self.emit("%s = %s" % (self.fresh("al"), r.choice(self.funcs)[0]))
     elif self.upstream:
       up, exports = r.choice(self.upstream)
+      up = self.local.get(up, up)   # the name the module is bound to here
       names = exports.get("classes", []) + exports.get("funcs", [])
       if names:
         self.emit("%s = %s.%s" % (self.fresh("Al"), up, r.choice(names)))
@@ -651,12 +655,19 @@ class Gen:
   def gen_upstream_use(self):
     r = self.r
     up, exports = r.choice(self.upstream)
+    up = self.local.get(up, up)   # the name the module is bound to here
     pairs = [(b, d) for d, bs in sorted(exports.get("bases", {}).items()) for b in bs
              if b in exports.get("classes", []) and d in exports.get("classes", [])]
     if pairs and r.random() < 0.35:
       b, d = r.choice(pairs)
       c = self.fresh("u")
       self.emit("%s = (%s.%s() if %s else %s.%s())" % (c, up, d, self.unknown_cond(), up, b))
+      self.consts.append((c, "const"))
+      return
+    if exports.get("nested") and r.random() < 0.3:
+      # a value typed with a class nested in a class of the upstream module
+      c = self.fresh("u")
+      self.emit("%s = %s" % (c, r.choice(["%s.%s()", "[%s.%s()]"]) % (up, r.choice(exports["nested"]))))
       self.consts.append((c, "const"))
       return
     names = exports.get("consts", []) + exports.get("funcs", []) + exports.get("classes", [])
@@ -682,7 +693,12 @@ class Gen:
       if len(names) >= 2 and r.random() < 0.6:
         pick = r.sample(names, min(len(names), r.randrange(2, 4)))
         self.emit("from %s import %s" % (up, ", ".join(pick)))
-      self.emit("import %s" % up)
+      if r.random() < 0.25:
+        # `import m as x`: the emitted stub keeps the alias
+        self.local[up] = "al_" + up.replace(".", "_")
+        self.emit("import %s as %s" % (up, self.local[up]))
+      else:
+        self.emit("import %s" % up)
     self.emit()
     size = size or r.randrange(4, 16)
     prof = self.prof
@@ -737,7 +753,8 @@ class Gen:
     return {"consts": [c for c, _ in self.consts if not c.startswith("_")],
             "funcs": [f for f, _, _ in self.funcs],
             "classes": [c for c, _, _ in self.classes],
-            "bases": {c: list(b) for c, b in self.bases_of.items() if b}}
+            "bases": {c: list(b) for c, b in self.bases_of.items() if b},
+            "nested": list(self.nested)}
 
 
 NAME_POOL = ("Base", "Derived", "Leaf", "Shape", "Circle", "Item", "Count")
